@@ -30,7 +30,7 @@ import os
 
 import numpy as np
 
-from .algos import base_cfg, final_digests, finish, guarded, interpose, routine
+from .algos import base_cfg, final_digests, finish, guarded, interpose, prefill, routine
 from .envs import Recorder, ScriptEnv, decode_obs
 
 _CUR = {"rec": None, "created": None}
@@ -192,6 +192,7 @@ def run_sac(sc):
     qtgt = nnx.clone(q)
     ent = sac.EntropyControl(env, 0.2, True, 0.01)
     buf = recording_buffer(rb.ReplayBuffer, rec, sc["cap"])
+    prefill(buf, rb.ReplayBuffer, sc, np.zeros(na, dtype=np.float32))
     logger = recording_logger(rec)
     # names = the keys the routine hands to logger.record_epoch, so that the logger does not watch them twice
     w = _Watches(rec)
@@ -245,6 +246,7 @@ def _td7(name, sc, use_checkpoints):
     copt = nnx.Optimizer(critic, optax.adam(0.01), wrt=nnx.Param)
     atgt, ctgt = nnx.clone(actor), nnx.clone(critic)
     buf = recording_buffer(rb.LAP, rec, sc["cap"])
+    prefill(buf, rb.LAP, sc, np.zeros(na, dtype=np.float32))
     logger = recording_logger(rec)
     # watch names = record_epoch keys of train_td7 (td7.py 769-772, 913-967)
     mods = dict(embedding=embedding, q=critic, policy=actor, policy_target=atgt, q_target=ctgt)
